@@ -58,18 +58,44 @@ func validateJSONPatches(patches []byte) error {
 			return fmt.Errorf("%s: path not found", patch.JSONPatch)
 		}
 
-		var path string
-		if err := json.Unmarshal(*pathMsg, &path); err != nil {
-			return fmt.Errorf("%s: invalid path", patch.JSONPatch)
+		if err := validateJSONPointer(pathMsg, "path"); err != nil {
+			return err
 		}
 
-		if strings.HasPrefix(path, "/"+document.ServiceProperty) {
-			return fmt.Errorf("%s: cannot modify services", patch.JSONPatch)
+		// 'move' and 'copy' operations address a second location
+		if fromMsg, ok := p["from"]; ok {
+			if err := validateJSONPointer(fromMsg, "from"); err != nil {
+				return err
+			}
 		}
+	}
 
-		if strings.HasPrefix(path, "/"+document.PublicKeyProperty) {
-			return fmt.Errorf("%s: cannot modify public keys", patch.JSONPatch)
-		}
+	return nil
+}
+
+// validateJSONPointer makes sure that the pointer doesn't address services or public keys.
+func validateJSONPointer(pointerMsg *json.RawMessage, name string) error {
+	if pointerMsg == nil {
+		return fmt.Errorf("%s: invalid %s", patch.JSONPatch, name)
+	}
+
+	var pointer string
+	if err := json.Unmarshal(*pointerMsg, &pointer); err != nil {
+		return fmt.Errorf("%s: invalid %s", patch.JSONPatch, name)
+	}
+
+	// the JSON patch library ignores everything in front of the first '/',
+	// hence only a well-formed JSON pointer (RFC 6901) can be checked reliably
+	if pointer != "" && !strings.HasPrefix(pointer, "/") {
+		return fmt.Errorf("%s: %s is not a valid JSON pointer", patch.JSONPatch, name)
+	}
+
+	if strings.HasPrefix(pointer, "/"+document.ServiceProperty) {
+		return fmt.Errorf("%s: cannot modify services", patch.JSONPatch)
+	}
+
+	if strings.HasPrefix(pointer, "/"+document.PublicKeyProperty) {
+		return fmt.Errorf("%s: cannot modify public keys", patch.JSONPatch)
 	}
 
 	return nil
